@@ -323,6 +323,10 @@ class Registry:
             if typ.hi is not None:
                 p.assume(b.n <= typ.hi)
             return SByteArray(b) if typ.mutable else b
+        if isinstance(typ, api.GhostDevice):
+            from .extmodels import GhostDev
+
+            return GhostDev(it, name)
         if isinstance(typ, api.Opaque):
             return OpaqueValue(name)
         if isinstance(typ, api.Const):
@@ -385,6 +389,10 @@ class Registry:
         p: Path = it.p
         if isinstance(typ, api.Opaque):
             return True
+        if isinstance(typ, api.GhostDevice):
+            from .extmodels import GhostDev
+
+            return isinstance(v, GhostDev)
         if typ is int:
             return is_int_like(v)
         if typ is bool:
@@ -684,6 +692,7 @@ class Registry:
         p: Path = it.p
         if kwargs:
             raise Unsupported("uninterpreted function with keyword arguments")
+        args = [_effectively_concrete(a) for a in args]
         if not ops.has_sym(args):
             return uf.fn(*args)
         apps = p.uf_apps.setdefault(uf.name, [])
@@ -720,6 +729,13 @@ class Registry:
             res = p.fresh_bool(hint)
         elif isinstance(uf.result, api.Range):
             res = p.fresh_int(hint, uf.result.lo, uf.result.hi)
+            if uf.upper is not None:
+                try:
+                    ub = uf.upper(*args)
+                    if isinstance(ub, int):
+                        p.assume(res.t <= ub)
+                except Exception:  # pylint: disable=broad-except
+                    pass
         else:
             raise Unsupported("uninterpreted function result kind")
         # congruence with earlier applications (Ackermann)
@@ -734,6 +750,27 @@ class Registry:
         apps.append((list(args), res))
         p.assumption_ids.add("uf:" + uf.name)
         return res
+
+
+def _effectively_concrete(a: Any) -> Any:
+    """Byte strings / ints whose terms are all literals become plain Python values (so that an application on literal data is
+    the literal result on both the code side and the specification side)."""
+    if isinstance(a, (SBytes, SByteArray)):
+        b = as_sbytes(a)
+        n = b.conc_len()
+        if n is not None and n <= 4096:
+            out = []
+            for i in range(n):
+                t = z3.simplify(b.at(z3.IntVal(i)))
+                if not z3.is_int_value(t):
+                    return a
+                out.append(t.as_long() & 0xFF)
+            return bytes(out)
+        return a
+    if isinstance(a, SInt):
+        t = z3.simplify(a.t)
+        return t.as_long() if z3.is_int_value(t) else a
+    return a
 
 
 class _LenExpr:
